@@ -30,10 +30,24 @@ def run(ctx, prop):
     hb = ctx.build("tasklane", race=race)
     args = [hb, "-out", ctx.path("traces.ndjson")]
     if q:
-        args += ["-random", "40", "-gatek", "1", "-atrest", "1", "-panics", "5"]
+        args += ["-random", "40", "-gatek", "1", "-atrest", "1", "-panics", "4", "-burst", "2", "-burstper", "50", "-timeouts", "3"]
     else:
-        args += ["-random", "600", "-gatek", "3", "-atrest", "8", "-panics", "60"]
-    p = ctx.run(args, timeout=3000, ok_codes=(0, 66), env={"GORACE": "halt_on_error=0"})
+        args += ["-random", "600", "-gatek", "3", "-atrest", "8", "-panics", "60", "-burst", "24", "-burstper", "150", "-timeouts", "40"]
+    p = ctx.run(args, timeout=3000, ok_codes=(0, 66, 2), env={"GORACE": "halt_on_error=0"})
+    if p.returncode == 2:
+        # the harness process died: a Go run-time panic that escaped (or happened inside) the lane's own goroutines
+        m_ = re.search(r"^(panic: .*|fatal error: .*)$", p.stderr, re.M)
+        if m_ and "tasklane.(*TaskLane)" in p.stderr and "tasklane/tasklane.go" in p.stderr:
+            if prop in ("C14", "C06"):
+                frame = re.search(r"tasklane\.\(\*TaskLane\)\.(\w+)", p.stderr)
+                ctx.violation("process crashed inside tasklane.%s" % (frame.group(1) if frame else "?"),
+                              "a panic was not contained: the process died with %r inside the lane's goroutine:\n%s" % (m_.group(1), p.stderr[:1500]),
+                              {"stderr": p.stderr[:6000]})
+                ctx.cov.update({"traces_validated_against_impl": 0, "evaluations": 1, "distinct_nontrivial": 0,
+                                "rule": "harness crashed inside tasklane", "exhaustive": False})
+                ctx.sample({"crash": m_.group(1)})
+                return
+        raise vlib.Infra("tasklane harness died:\n" + p.stderr[-2500:])
     races = p.stderr.count("WARNING: DATA RACE")
     if races and race:
         m_ = re.search(r"WARNING: DATA RACE\n(.*?)\n\n", p.stderr, re.S)
@@ -69,7 +83,7 @@ def run(ctx, prop):
     per_kind = {}
     chosen = []
     for c in sorted(rows, key=lambda c: len(c["evs"])):
-        if len(c["evs"]) > (260 if q else 500):
+        if len(c["evs"]) > (260 if q else 500) or c["kind"] == "quietburst":
             continue
         per_kind.setdefault(c["kind"], 0)
         if per_kind[c["kind"]] < (8 if q else 60):
